@@ -66,6 +66,12 @@ def _job_worker(job):
         b = G_BUILDS[job['build']]
         roots = [job['fn_ir']] + job['uses_ir']
         text, info = ll2c.translate(b.mod, roots=roots, prefix='', poison_flags=job['poison_flags'], uf_float=job.get('uf_float', ()))
+        if job.get('rel'):
+            b2 = G_BUILDS[job['rel'][0]]
+            text2, info2 = ll2c.translate(b2.mod, roots=list(job['rel'][1]), prefix='R_', poison_flags=job['poison_flags'], uf_float=job.get('uf_float', ()))
+            text = text + '\n/* ---- relational counterpart extracted from build %s (prefix R_) ---- */\n' % job['rel'][0] + text2
+            info['trusted'] = sorted(set(info.get('trusted', [])) | set(info2.get('trusted', [])))
+            info['libm'] = sorted(set(info.get('libm', [])) | set(info2.get('libm', [])))
         job['text'] = job['text'].replace('@@GEN@@', text)
         # line numbers shift by the generated text
         shift = text.count('\n')
@@ -144,7 +150,7 @@ class Prop:
         contracts = [c for c in self.contracts if (tier == 'thorough' or c.tier == 'quick')]
         if only:
             contracts = [c for c in contracts if re.search(only, c.fn)]
-        used_builds = sorted({c.build for c in contracts})
+        used_builds = sorted({c.build for c in contracts} | {c.rel[0] for c in contracts if getattr(c, 'rel', None)})
         builds = [self.builds[t] for t in used_builds]
         try:
             with ThreadPoolExecutor(max_workers=NPROC) as ex:
@@ -199,7 +205,8 @@ class Prop:
                              'timeout': c.timeout, 'timeout_s': c.timeout, 'workdir': wd})
                 jobmeta[ckey] = (c, sig, ens, fnd)
                 continue
-            text, lines = harness_text(c, sig, '@@GEN@@', ensures_override=ens)
+            rel_sigs = {n: self.builds[c.rel[0]].driver.shims[n].view_sig() for n in c.rel[1]} if getattr(c, 'rel', None) else None
+            text, lines = harness_text(c, sig, '@@GEN@@', ensures_override=ens, rel_sigs=rel_sigs)
             jid = jid0
             uses_ir = []
             for u in c.uses:
@@ -207,14 +214,14 @@ class Prop:
             job = {'id': jid, 'key': ckey, 'fn': c.fn, 'fn_ir': fn_ir, 'uses_ir': uses_ir, 'build': b.tag, 'text': text, 'lines': lines,
                    'workdir': wd, 'replace': c.replace, 'backends': list(c.backends), 'unwind': c.unwind,
                    'timeout': c.timeout if tier == 'quick' else max(c.timeout, 900), 'in_names': [n for t, n in sig['ins']],
-                   'cbmc_flags': list(c.flags), 'poison_flags': c.poison_flags, 'uf_float': list(getattr(c, 'uf_float', ()))}
+                   'cbmc_flags': list(c.flags), 'poison_flags': c.poison_flags, 'uf_float': list(getattr(c, 'uf_float', ())), 'rel': (c.rel[0], list(c.rel[1])) if getattr(c, 'rel', None) else None}
             if c.kind == 'U':
                 job['cbmc_flags'] = job['cbmc_flags'] + ['--pointer-check', '--bounds-check']
             jobs.append(job)
             jobmeta[ckey] = (c, sig, ens, fnd)
             sfnd = {k: f for k, f in fnd.items() if k.startswith('safety:')}
             if sfnd:
-                text2, lines2 = harness_text(c, sig, '@@GEN@@', extra_requires=['!(%s)' % f.S for f in sfnd.values()], ensures_override=ens)
+                text2, lines2 = harness_text(c, sig, '@@GEN@@', extra_requires=['!(%s)' % f.S for f in sfnd.values()], ensures_override=ens, rel_sigs=rel_sigs)
                 job2 = dict(job)
                 job2.update({'id': jid + '_x', 'text': text2, 'lines': lines2, 'variant': 'outsideS'})
                 jobs.append(job2)
@@ -372,7 +379,8 @@ class Prop:
             return {'ok': False, 'error': 'not a shim-level contract'}
         if c.kind == 'R':
             return run_replay_R(b, b.driver.shims[c.fn], c, inputs, wd, re.sub(r'\W', '_', c.fn + '_' + tag))
-        return run_replay(b, b.driver.shims[c.fn], c, inputs, wd, re.sub(r'\W', '_', c.fn + '_' + tag), sanitize=(c.kind == 'U'))
+        return run_replay(b, b.driver.shims[c.fn], c, inputs, wd, re.sub(r'\W', '_', c.fn + '_' + c.build + '_' + tag), sanitize=(c.kind == 'U'),
+                          rel_build=self.builds[c.rel[0]] if getattr(c, 'rel', None) else None)
 
     def make_violation(self, c, sig, clause_key, clause_name, r, wd, why):
         inputs = r['inputs'].get(clause_key) or r['inputs'].get(clause_name) or {}
